@@ -286,6 +286,70 @@ func stdErrClass(err error) string {
 	return "other"
 }
 
+type c02Wide struct {
+	A int                 `json:"a"`
+	R gojson.RawMessage   `json:"r"`
+	L []struct{}          `json:"l"`
+	I any                 `json:"i"`
+	M map[string]struct{} `json:"m"`
+	Z int                 `json:"z"`
+}
+
+// c02Siblings: valid, shallow documents with more sibling containers than the nesting limit (10000)
+// in every position a decoder treats differently - skipped (unknown member), kept raw, decoded into
+// a slice, a map, interface{}; arrays of objects, of arrays, objects of arrays, mixed. A depth
+// counter that is not decremented on the way out turns the number of siblings into a depth.
+func c02Siblings(c *rt.Ctx, sub0 int) {
+	rep := func(unit string, n int) string { return strings.TrimSuffix(strings.Repeat(unit+",", n), ",") }
+	vals := map[string]string{
+		"array-of-objects":      "[" + rep("{}", 10050) + "]",
+		"array-of-arrays":       "[" + rep("[]", 10050) + "]",
+		"array-of-mixed":        "[" + rep(`{"k":[{}]}`, 5100) + "]",
+		"object-of-arrays":      "{" + strings.TrimSuffix(strings.Repeat(`"k":[[]],`, 10050), ",") + "}",
+		"object-of-objects":     "{" + strings.TrimSuffix(strings.Repeat(`"k":{"x":{}},`, 5100), ",") + "}",
+		"array-of-string-pairs": "[" + rep(`["a","]"]`, 10050) + "]",
+	}
+	names := []string{"array-of-objects", "array-of-arrays", "array-of-mixed", "object-of-arrays", "object-of-objects", "array-of-string-pairs"}
+	sub := sub0
+	for _, vn := range names {
+		val := vals[vn]
+		for _, key := range []string{"zz", "r", "l", "i", "m"} {
+			if (key == "l" && val[0] != '[') || (key == "m" && val[0] != '{') {
+				continue
+			}
+			if key == "l" && vn != "array-of-objects" {
+				continue
+			}
+			if key == "m" && vn != "object-of-objects" {
+				continue
+			}
+			doc := []byte(`{"a":1,"` + key + `":` + val + `,"z":2}`)
+			if !c.Cur(sub, "shapes=core\nsiblings: "+vn+" as member "+key) {
+				sub++
+				continue
+			}
+			for ci := range decCfgs {
+				cfg := &decCfgs[ci]
+				if strings.Contains(cfg.name, "DisallowUnknownFields") && key == "zz" {
+					continue
+				}
+				var g, s c02Wide
+				var gerr error
+				pan, msg, _ := rt.Guard(func() { gerr = cfg.gof(doc, &g) })
+				serr := cfg.stdf(doc, &s)
+				c.Eval(1)
+				if pan || (gerr != nil) != (serr != nil) || (serr == nil && (g.A != s.A || g.Z != s.Z || len(g.L) != len(s.L) || len(g.M) != len(s.M) || len(g.R) != len(s.R))) {
+					c.Violate(rt.Violation{Monitor: "dec-diff", Entry: cfg.name, Kind: "many-siblings", Ctx: vn + ":member-" + key,
+						Detail: fmt.Sprintf("%d-byte document with %s as member %q: go-json err=%v panic=%v %s (a=%d z=%d), encoding/json err=%v (a=%d z=%d)", len(doc), vn, key, gerr, pan, msg, g.A, g.Z, serr, s.A, s.Z), Sub: sub})
+				}
+			}
+			c.NonTrivial("siblings", vn, key)
+			sub++
+		}
+	}
+	c.Obs("sibling_documents", int64(sub-sub0))
+}
+
 func init() {
 	register(&Prop{
 		ID: "C02",
@@ -297,6 +361,9 @@ func init() {
 		},
 		Run: func(c *rt.Ctx) {
 			rv := c.RNG(0)
+			if c.Idx%256 == 9 {
+				c02Siblings(c, 5000)
+			}
 			for k := 0; k < 40; k++ {
 				o := gen.TypeOpts{FeatureProb: 20}
 				var t reflect.Type
